@@ -118,7 +118,10 @@ class Schema:
             if len(ptys) != rel.arity or any(t not in self.types for t in ptys):
                 raise Unsupported("insert_%s signature %s does not match arity %d" % (rel.name, ptys, rel.arity))
             rel.types = ptys
-            rel.kind = "func" if (self.model, "define_" + rel.name) in prog.methods else "pred"
+            # a function's point query returns Option<value>; define_<f> exists only for functions that may be made defined
+            q = prog.methods.get((self.model, rel.name))
+            qout = ty_name(q["sig"]["output"]) if q is not None and q["sig"]["output"] is not None else None
+            rel.kind = "func" if ((self.model, "define_" + rel.name) in prog.methods or qout == "Option") else "pred"
         for name in list(self.elem_index):
             base = name[:-len("_element_index")]
             ok = None
